@@ -22,6 +22,9 @@
 (*    the dictionary of the encoder, on ImplEncoder).  EqMode = "uri"      *)
 (*    (history/MC_Encoding_eq_uri.cfg): an equality that identifies terms  *)
 (*    by URI while the hash stays on the name -- refuted on the pairs.     *)
+(*    EqMode = "nan_equal" (history/MC_Encoding_eq_nan.cfg): NaN features  *)
+(*    equal while hash(nan) follows object identity.  KeyMode =            *)
+(*    "strip_value" (history/MC_Encoding_key_strip_value.cfg).             *)
 (*    HashMode = "extras_order" (history/MC_Encoding_hash_extras_order.cfg)*)
 (*    a Term hash that sees the order in which extra attributes were given.*)
 (***************************************************************************)
@@ -57,6 +60,7 @@ Key(u) == CASE KeyMode = "term_value"  -> <<UTag[u][1], UTag[u][2]>>
             [] KeyMode = "name_value"  -> <<TermName[UTag[u][1]], UTag[u][2]>>
             [] KeyMode = "label_value" -> <<TermLabel[UTag[u][1]], UTag[u][2]>>
             [] KeyMode = "value"       -> <<UTag[u][2]>>
+            [] KeyMode = "strip_value" -> <<UTag[u][1], StripVal[UTag[u][2]]>>       \* control: (term, value.strip())
 \* a python dict finds an equal key only under an equal hash; control HashMode = "fields_set": the hash of a term depends
 \* on which fields were passed explicitly, so equal tags written differently miss each other
 \* ... control HashMode = "extras_order": the hash sees the order in which a term's extra attributes were given
@@ -66,6 +70,8 @@ Lookup(u) == IF ~HashMiss /\ \E e \in map : e[1] = Key(u) THEN <<(CHOOSE e \in m
 Init == /\ \/ \E v \in Vocabs, ts \in TagLists : (Len(v) < MaxVocab \/ Len(ts) <= SmallTags) /\ c = EncCase(v, ts)
            \* tags on terms that carry a URI (equal URI / different name, equal name / different URI) and one without
            \/ \E v \in {w \in SeqsUpTo(UriTags, 2) : Injective(w)}, ts \in SeqsUpTo(UriTags, 2) : c = EncCase(v, ts)
+           \* tag values that differ only by surrounding whitespace ("a", "a ", " a") are different tags
+           \/ \E v \in {w \in SeqsUpTo(WsTags, 2) : Injective(w)}, ts \in SeqsUpTo(WsTags, 2) : c = EncCase(v, ts)
            \/ \E v \in Vocabs, ts \in TagLists : \E vp \in Written, qp \in Written :
                  Len(v) <= 2 /\ Len(ts) <= ProvTags /\ <<vp, qp>> # <<"fresh", "fresh">> /\ SameContent(vp, qp)
                  /\ c = EncCaseP(v, ts, vp, qp)
